@@ -356,6 +356,9 @@ def check(repo: Repo, run: Run) -> None:
     from .c15 import check_decoder
 
     check_decoder(repo, run, "C20.S7")
+    # S4b: what is printed is the JSON serialisation of the value: the encoder's to_python replaces every BoolType,
+    # at any depth, before json sees it (instances shared with C15.J3)
+    run.borrow(repo, "C15", "C20.S4b", lambda o: o["rule"] == "C15.J3" and "to_python" in o["key"], 3)
     # S4 -----------------------------------------------------------------
     disp = [n for n in ast.walk(main) if isinstance(n, ast.FunctionDef) and n.name == "output_display"]
     enc = [d for d in disp if "json.dumps(result_value, cls=CELJSONEncoder)" in ast.unparse(d)]
